@@ -8,4 +8,4 @@ CONSTANTS
 INIT Init
 NEXT Next
 VIEW View
-INVARIANTS AtMostOnce
+PROPERTIES AtMostOnceA
